@@ -26,12 +26,13 @@ type Ob struct {
 }
 
 type Run struct {
-	P     *Program
-	E     *Engine
-	Prop  string
-	Tier  string
-	Seed  int
-	Start time.Time
+	derivedMut map[*types.Func]*MutInfo
+	P          *Program
+	E          *Engine
+	Prop       string
+	Tier       string
+	Seed       int
+	Start      time.Time
 
 	Obs         []Ob
 	Undecided   []string
@@ -54,7 +55,7 @@ type Run struct {
 	entryMemo map[*Func]lockset
 	callSites map[*Func][]callSite
 	feasible  map[*Func][]Path
-	neverErr map[*types.Func]int
+	neverErr  map[*types.Func]int
 }
 
 // Paths returns the feasible paths of fn: the engine's paths minus those that observe an error
